@@ -86,7 +86,7 @@ check("C11",
 check("C04",
       "Deep model: the LLIL the Python lifter emits (Model/Lift.v, one clause per Instruction subclass) and the evaluator the emulator runs it with (Model/IL.v: eval_llil handlers, flag post-processing, label/goto loop, intrinsics), plus the documented effect of every instruction written independently from the README tables (Model/Spec.v). "
       "Coq theorems: ADD/SUB at any width and all operands give the documented result, carry/borrow and zero (lia); every 8-bit operation (ADD SUB ADC SBC AND OR XOR PMDF INC DEC ROR ROL SHL SHR SWAP) and the BCD digit emulation are evaluated inside Coq on all 2^8 x 2^8 x carry-in x zero-in inputs and equal the documented functions, and on valid BCD the documented byte function is decimal add/subtract with carry; "
-      "instruction level, full strength (every register, flag, memory byte, low-power flag; any address, any state): ADD/SUB/ADC/SBC/AND/OR/XOR/CMP/TEST/MV A,n, ROR/ROL/SHR/SHL/SWAP A, INC/DEC A|BA|I and PUSHU/POPU A|BA|I|X|Y and PUSHU IL (1-, 2- and 3-byte user-stack pushes and pops) execute to exactly the documented state; so do the internal-memory forms MV r,(n) (r = A, BA, I, X, Y, U, S; widths 1-3), MV (n),r and MV/MVW (n),imm the two-operand transfers MV/MVW/MVP (m),(n) (destination through the prefix's first mode, source through its second), the byte exchange EX (m),(n) (guarded: the first operand is not the BP/PX/PY cell), the ALU forms ADD/SUB/ADC/SBC/AND/OR/XOR A,(n), and the read-modify-write forms ADD/SUB/ADC/SBC/AND/OR/XOR (n),imm | (n),A and INC/DEC (n), with no prefix and with each of the 15 prefixes (cell named by the prefix's mode, BP/PX/PY from the state; byte memory), and the register-indirect forms MV A,[r] / [r++] / [--r] / [r+n] / [r-n] and MV [..],A for r = X, Y, U, S (scratch registers outside the comparison); and counted instructions for EVERY count: MVL (m),(n) and MVLD (m),(n) x 16 prefix choices, I = 0..65535, by induction over the iterations of the lifted label/if/goto loop - the loop terminates within the emulator's fuel and equals the documented wrapping block move. "
+      "instruction level, full strength (every register, flag, memory byte, low-power flag; any address, any state): ADD/SUB/ADC/SBC/AND/OR/XOR/CMP/TEST/MV A,n, ROR/ROL/SHR/SHL/SWAP A, INC/DEC A|BA|I and PUSHU/POPU A|BA|I|X|Y and PUSHU/POPU IL (1-, 2- and 3-byte user-stack pushes and pops) execute to exactly the documented state; so do the internal-memory forms MV r,(n) (r = A, BA, I, X, Y, U, S; widths 1-3), MV (n),r and MV/MVW (n),imm the two-operand transfers MV/MVW/MVP (m),(n) (destination through the prefix's first mode, source through its second), the byte exchange EX (m),(n) (guarded: the first operand is not the BP/PX/PY cell), the ALU forms ADD/SUB/ADC/SBC/AND/OR/XOR A,(n), and the read-modify-write forms ADD/SUB/ADC/SBC/AND/OR/XOR (n),imm | (n),A and INC/DEC (n), with no prefix and with each of the 15 prefixes (cell named by the prefix's mode, BP/PX/PY from the state; byte memory), and the register-indirect forms MV A,[r] / [r++] / [--r] / [r+n] / [r-n] and MV [..],A for r = X, Y, U, S (scratch registers outside the comparison); and counted instructions for EVERY count: MVL (m),(n) and MVLD (m),(n) x 16 prefix choices, I = 0..65535, by induction over the iterations of the lifted label/if/goto loop - the loop terminates within the emulator's fuel and equals the documented wrapping block move. "
       "Tie, every run: IL text of the model lifter vs the Python lifter on every prefix x opcode x mode-byte structure; model evaluator vs Emulator.execute_instruction (registers, written memory, access logs, random TEMPs); extracted documented semantics vs the Python emulator on the same cases and on op A,n for all A x n x carry (2^17 per operation in thorough).",
       "Trusted: Coq kernel (vm_compute for the finite sweeps), extraction, harness drivers, README transcription in Spec.v. Modelled not verified: instructions.py/opcodes.py lifts, eval_llil.py, emulator loop, intrinsics.py. Partial: instruction-level theorems cover 23 register/immediate/stack instructions, 13 internal-memory load/store, 7 internal-memory-source and 16 internal-memory-destination ALU opcodes x 16 prefix choices, MVL/MVLD (m),(n) for every count and 40 register-indirect forms; the other memory forms, counted and stack instructions are decided by the executable documented semantics compared with the implementation on every run (stack frames of CALL/RET/IR/RETI are proved under C05/C12); runs of more than 257 iterations are judged on the implementation by the documented invariants only. Known findings: EXL, decimal shifts, no wrap of counted internal runs, RET page, MV [r3++],r3, BP/PX/PY aliasing; four defects fixed (ADC/SBC carry, JP (n), MVL and EX prefix modes).",
       "Coq proof (lia + exhaustive in-kernel evaluation lifted by forallb_forall + symbolic execution of lifted IL) + IL-text and execution correspondence vs the Python lifter/emulator + executable documented-semantics oracle",
